@@ -7,12 +7,20 @@ Proved — the two representation round trips a remount goes through:
 * directories: scanning the slot sequence `update_directory_entry` serialises
   returns the in-memory entry list, in order, long names attached, whatever
   follows the end mark; long names decode to the given name.
-Whether each operation actually *issues* those writes (flush / rewrite at the
-right moments) is decided on the real code: suites ns / fat / names remount a
-copy of the device after every completed call and after close().
+* the writes are issued: in the filesystem-level model `Model.Fs` (operations written
+  after PyFatFS / FatIO call by call, with the device as a second copy that only
+  `flush_fat` and `update_directory_entry` change) memory and device agree after
+  every call of every history — the FAT as last flushed is the in-memory FAT, the
+  entries as last written are the in-memory entries — however the call ended
+  (`c03_fs_synced`, `c03_fs_synced_step`).  Tied to the code by suite `fsmodel`,
+  which compares the model's device state with what an independent reader finds
+  on the real device after every call.
+On the real code: suites ns / fat / names / fsmodel remount (or read) a copy of the
+device after every completed call and after close().
 -/
 import PyFatModel.Proofs.FatTable
 import PyFatModel.Proofs.Dir
+import PyFatModel.Proofs.FsRun
 
 open Model.FatTable Model.Dir Model.Bytes
 
@@ -39,5 +47,26 @@ theorem c03_directory_persisted (cks : List Nat → Nat) (es : List Ent) (junk :
 theorem c03_long_name_persisted (name : List Nat) (cks : Nat) (hne : name ≠ [])
     (hl : ∀ u ∈ name, u ≠ 0 ∧ u ≠ 65535) : decodeLfn (makeLfn name cks) = name :=
   Proofs.Dir.decode_make name cks hne hl
+
+/-! ## the filesystem level (`Model.Fs`): memory = device after every call -/
+
+/-- one call, in any state that satisfies the invariant and in which memory and device agree:
+    they agree afterwards — success, refusal or out-of-space -/
+theorem c03_fs_synced_step (v : Model.Fs.Vol) (count : Nat) (hv : Proofs.FsInv.VolOK v count) (s : Model.Fs.St)
+    (h : Proofs.FsInv.Inv v count s) (hs : Proofs.FsSync.Sync s) (op : Model.Fs.Op) :
+    Proofs.FsSync.Sync (Model.Fs.step v s op).1 :=
+  (Proofs.FsInv.step_good hv h op).2.2 hs
+
+/-- all histories -/
+theorem c03_fs_synced (v : Model.Fs.Vol) (count : Nat) (hv : Proofs.FsInv.VolOK v count) (s : Model.Fs.St)
+    (h : Proofs.FsInv.Inv v count s) (hs : Proofs.FsSync.Sync s) (ops : List Model.Fs.Op) :
+    (Model.Fs.run v s ops).dfat = (Model.Fs.run v s ops).fat ∧
+      (Model.Fs.run v s ops).disk.Perm ((Model.Fs.run v s ops).nodes.map Model.Fs.Node.dent) :=
+  let r := Proofs.FsInv.run_sync hv ops s h hs
+  ⟨r.fat, r.disk⟩
+
+/-- non-vacuity: the empty volume of `Props.C01` is in sync, and so is the state after a history -/
+example : Proofs.FsSync.Sync (⟨[4088, 4095, 0, 0, 0, 0, 0, 0], 0, [], [], [4088, 4095, 0, 0, 0, 0, 0, 0], []⟩ : Model.Fs.St) :=
+  ⟨rfl, List.Perm.refl _⟩
 
 end Props.C03
